@@ -106,6 +106,8 @@ pub struct Dims {
     pub expect_hits: bool,
     pub cache: u64,
     pub fdt: u8, // 0 none, 1 capacity 1, 2 capacity 256
+    #[serde(default)]
+    pub lz4: bool,
 }
 
 pub fn default_dims() -> Dims {
@@ -121,6 +123,7 @@ pub fn default_dims() -> Dims {
         expect_hits: false,
         cache: 16 << 20,
         fdt: 2,
+        lz4: false,
     }
 }
 
@@ -137,7 +140,9 @@ pub fn all_dims() -> Vec<Dims> {
                                     for expect_hits in [false, true] {
                                         for cache in [0u64, 16 << 20] {
                                             for fdt in [0u8, 1, 2] {
-                                                v.push(Dims { block_size, restart, hash_ratio, index_part, filter_part, pin_index, pin_filter, filter, expect_hits, cache, fdt });
+                                                for lz4 in [false, true] {
+                                                    v.push(Dims { block_size, restart, hash_ratio, index_part, filter_part, pin_index, pin_filter, filter, expect_hits, cache, fdt, lz4 });
+                                                }
                                             }
                                         }
                                     }
@@ -164,6 +169,7 @@ pub fn distance(a: &Dims, b: &Dims) -> usize {
         + usize::from(a.expect_hits != b.expect_hits)
         + usize::from(a.cache != b.cache)
         + usize::from(a.fdt != b.fdt)
+        + usize::from(a.lz4 != b.lz4)
 }
 
 pub fn cfg_for(h: &Hist, d: &Dims) -> TreeCfg {
@@ -187,6 +193,7 @@ pub fn cfg_for(h: &Hist, d: &Dims) -> TreeCfg {
         1 => Some(1),
         _ => Some(256),
     };
+    c.lz4 = d.lz4;
     if h.blob {
         c = c.with_blob(16);
     }
